@@ -309,6 +309,9 @@ func runC25(r *simkit.R) {
 	bad, total := 0, 0
 	for _, rec := range w.recs {
 		total++
+		if rec.binErr != "" {
+			r.Failf("put-transport", "a node is handed a broken binary: "+rec.binErr, "node %s (%s): %s", w.nodeName(rec.node), rec.via, rec.binErr)
+		}
 		if !rec.acked {
 			bad++
 			continue
